@@ -160,7 +160,7 @@ type c25Case struct {
 
 func genC25(t *rapid.T) c25Case {
 	c := c25Case{Concurrent: rapid.IntRange(0, 3).Draw(t, "conc") == 0}
-	c.Ops = genSops(t, []string{"attach", "attach", "attach", "detach", "listen", "listen", "unlisten", "send", "anon", "lgate", "lrelease"}, 3, 3, 14)
+	c.Ops = genSops(t, []string{"attach", "attach", "attach", "detach", "listen", "listen", "unlisten", "send", "anon", "selfattach", "lgate", "lrelease"}, 3, 3, 14)
 	for i := range c.Ops {
 		if c.Ops[i].Op == "send" {
 			c.Ops[i].Kind, c.Ops[i].Epoch = "honest", "current"
@@ -322,6 +322,11 @@ func checkC25(c c25Case) (o vstat.Outcome) {
 			t.teardown()
 			return
 		}
+	}
+	if t.classes["self-addressed-call-accepted"] {
+		o.V = vstat.Viol("self-addressed-call-accepted", "after %s: a Session call addressed to the caller itself was not refused", t.history())
+		t.teardown()
+		return
 	}
 	// end every remaining call in a generated order
 	type ender interface{ stop() bool }
